@@ -6,8 +6,8 @@ Code ~ Spec: TLC-emitted pairs of real runs compared row-wise for every order ke
 """
 from .. import relcheck
 
-INVS = ["Inv_C13_NCEM", "Inv_C13_Flip", "Inv_C13_Conj", "Inv_C13_Exch"]
-RELS = ["NCReducesToEM", "PositronFlip", "ChargeConjugation", "LeptonAsNeutrino", "EqualCharge"]
+INVS = ["Inv_C13_NCEM", "Inv_C13_Flip", "Inv_C13_Conj", "Inv_C13_Exch", "Inv_C13_Tagged"]
+RELS = ["NCReducesToEM", "PositronFlip", "ChargeConjugation", "LeptonAsNeutrino", "EqualCharge", "TaggedSpectators"]
 
 
 def run(ctx):
@@ -31,6 +31,10 @@ def run(ctx):
                            ORDERS={"11"}, EWS={"g1"} if q else {"g1", "g2"}, CKMS={"generic"} if q else {"generic", "unitary"})
     insts += relcheck.emit(ctx, RELS, PROCS={"NC", "CC"}, PROJS={"e-", "nu"}, KINDS={"F2", "F3"} if q else {"F2", "FL", "F3", "g1", "g4"},
                            FLAVS={"total"}, SCHEMES={"ZM5"} if q else {"ZM5", "FFNS3", "FFN03"}, ORDERS={"22"})
+    # flavour-tagged observables on the massless path above the NEXT threshold (the pure-singlet channel opens at a_s^2)
+    insts += relcheck.emit(ctx, ["TaggedSpectators", "PositronFlip", "NCReducesToEM"], PROCS={"NC"} if q else {"EM", "NC"}, PROJS={"e-"},
+                           KINDS={"F2"} if q else {"F2", "FL", "F3"}, FLAVS={"charm"} if q else {"charm", "bottom"},
+                           SCHEMES={"ZM5"} if q else {"ZM5", "ZM6"}, ORDERS={"22"})
     if not q:
         insts += relcheck.emit(ctx, RELS, PROCS={"NC", "CC"}, PROJS={"e-", "nu"}, KINDS={"F2", "F3"}, FLAVS={"total"},
                                SCHEMES={"ZM4"}, ORDERS={"33"}, TARGETS={"proton", "third"})
